@@ -26,6 +26,7 @@ func init() {
 	gens["Src_keyauth.v"] = genGoLoopKeyAuth
 	gens["Src_basicauth.v"] = genGoLoopBasicAuth
 	gens["Src_staticdir.v"] = genGoLoopStaticDir
+	gens["Src_group.v"] = genGoLoopGroup
 }
 
 // innerHandler finds the innermost function literal of shape func(c echo.Context) error inside fd.
@@ -98,6 +99,7 @@ type goliteCfg struct {
 	tail   map[string]bool // return f(...): f is called (an event) and its result returned
 	loop   bool            // emit the GoLoop dialect (Base/GoLoop.v): values are integers or strings, range loops, break, pure predicates
 	pure   map[string]bool // pure functions of the environment: calls become EPred
+	strs   map[string]bool // expressions (by spelling) known to be strings: `+` on them is concatenation
 	pcall  map[string]bool // functions whose results are a fixed function of their arguments during one request (an extractor, the
 	// validator): `xs := f(args)` becomes SCallP - results from the interpreter's pred, the call is recorded as an event
 	strfn map[string]bool      // functions known to return a string (for the type-test cells of a field set from their result)
@@ -256,7 +258,7 @@ func (g *goliteCfg) expr(e ast.Expr) (string, error) {
 		}
 		switch v.Op {
 		case token.ADD:
-			if g.loop && (isStringy(v.X) || isStringy(v.Y)) {
+			if g.loop && (isStringy(v.X) || isStringy(v.Y) || g.strs[lit(v.X)] || g.strs[lit(v.Y)]) {
 				return fmt.Sprintf("EPred \"concat\" [%s; %s]", a, b), nil
 			}
 			return fmt.Sprintf("EAdd (%s) (%s)", a, b), nil
@@ -1083,4 +1085,30 @@ func genGoLoopStaticDir(repo string) (string, error) {
 		return "", err
 	}
 	return goloopHeader + "(* echo_fs.go: the handler returned by StaticDirectoryHandler (Echo.Static, Group.Static, StaticFS).  Unescaping and fs.Stat are\n   fixed functions of their arguments (SCallP); TrimPrefix, Clean, ToSlash, sanitizeURI, len, indexing and concatenation are pure. *)\n" + s, nil
+}
+
+func genGoLoopGroup(repo string) (string, error) {
+	f, err := parseFile(repo, "group.go")
+	if err != nil {
+		return "", err
+	}
+	out := goloopHeader + "(* group.go: Group.Use, Group.Group, Group.Add, Group.RouteNotFound.  Middleware slices are VALUES (lists of ids): make and\n   append are pure, so what a theorem says about them is which middlewares a chain holds - not whether two slices share a backing\n   array (that is the correspondence's business).  Registrations (echo.add, RouteNotFound, the sub-group's Use) are events. *)\n"
+	flds := []string{"host", "prefix", "echo"}
+	for _, nm := range []string{"Use", "Group", "Add", "RouteNotFound"} {
+		fd := findFunc(f, "*Group", nm)
+		if fd == nil {
+			return "", fmt.Errorf("Group.%s not found", nm)
+		}
+		s, err := goliteFunc(fd, "group_"+strings.ToLower(nm), goliteCfg{loop: true, ignore: map[string]bool{}, cells: map[string]bool{},
+			pure:   map[string]bool{"make": true, "append": true, "len": true},
+			strs:   map[string]bool{"g.prefix": true, "prefix": true, "path": true},
+			objs:   map[string][]string{"sg": flds},
+			tail:   map[string]bool{"g.echo.add": true, "g.Add": true},
+			extern: map[string]bool{}})
+		if err != nil {
+			return "", err
+		}
+		out += s
+	}
+	return out, nil
 }
